@@ -55,6 +55,118 @@ def functions_index(text):
 READING_FUNCS = re.compile(r"^(read_\w+|tidy_\w+|spread_row_to_solution|add_\w+|check_\w+|parse_\w+|get_option\w*|copy_entities|reread\w*)$")
 
 
+# ------------------------------------------------------------------------------------------------ structural normalisation
+# Facts are extracted by structure, not by spelling.  A function body is normalised before any fact is read from it:
+#   comments stripped; calls of file-static helper functions of the same file inlined one level (parameters substituted by the arguments);
+#   simple local aliases (`T *p = this->PhreeqcPtr;`) resolved; file-scope named constants / #defines replaced by their literal;
+#   pointer casts and static_cast removed; `this->` removed; all braces removed (single statements with or without braces read the same);
+#   whitespace removed.  Facts are then stated as "contains", "A before X", "both A and B between X and Y" — never as "A textually next to B"
+#   where the statements are independent.
+
+def file_constants(text):
+    """file-scope named constants with a literal value"""
+    c = {}
+    for m in re.finditer(r"^\s*(?:static\s+)?const\s+[\w:]+\s+(\w+)\s*=\s*([-+]?[\w.]+)\s*;", text, re.M):
+        if re.fullmatch(r"[-+]?(\d[\w.]*|true|false)", m.group(2)):
+            c[m.group(1)] = m.group(2)
+    for m in re.finditer(r"^\s*#\s*define\s+(\w+)\s+([-+]?\d[\w.]*)\s*$", text, re.M):
+        c[m.group(1)] = m.group(2)
+    return c
+
+
+def static_helpers(text):
+    """{name: (params, body)} of file-static (or anonymous-namespace-free `static`) helper functions"""
+    h = {}
+    for m in re.finditer(r"(?:^|\n)\s*static\s+(?:inline\s+)?[\w:<>&*\s]+?\b(\w+)\s*\(([^;{}()]*)\)\s*\{", text):
+        name = m.group(1)
+        k, depth = m.end(), 1
+        while k < len(text) and depth:
+            depth += {"{": 1, "}": -1}.get(text[k], 0)
+            k += 1
+        params = []
+        for prm in [x.strip() for x in m.group(2).split(",") if x.strip() and x.strip() != "void"]:
+            pm = re.search(r"(\w+)\s*(?:\[\s*\])?$", prm)
+            if pm:
+                params.append(pm.group(1))
+        h[name] = (params, text[m.end():k - 1])
+    return h
+
+
+def split_args(a):
+    out, depth, cur = [], 0, ""
+    a = a.replace("->", "\x01")                         # the arrow is not a bracket
+    for ch in a:
+        if ch in "(<[":
+            depth += 1
+        elif ch in ")>]":
+            depth -= 1
+        if ch == "," and depth == 0:
+            out.append(cur.strip())
+            cur = ""
+        else:
+            cur += ch
+    if cur.strip():
+        out.append(cur.strip())
+    return [x.replace("\x01", "->") for x in out]
+
+
+def inline_helpers(body, helpers):
+    """replace statement-level calls `helper(args);` by the helper's body with the parameters substituted (one level)"""
+    for name, (params, hb) in helpers.items():
+        def rep(m):
+            args = split_args(m.group(1))
+            if len(args) != len(params):
+                return m.group(0)
+            t = hb
+            for prm, a in zip(params, args):
+                t = re.sub(r"\b" + re.escape(prm) + r"\b", lambda _m: a, t)
+            return "{" + t + "}"
+        body = re.sub(r"(?<![\w:.>])" + re.escape(name) + r"\s*\(((?:[^()]|\([^()]*\))*)\)\s*;", rep, body)
+    return body
+
+
+def resolve_aliases(body):
+    """`Phreeqc *p = this->PhreeqcPtr;` … `p->x`  →  `this->PhreeqcPtr->x` (simple member paths only)"""
+    for m in list(re.finditer(r"\b[\w:<>]+\s*[*&]\s*(?:const\s+)?(\w+)\s*=\s*((?:this->)?[\w]+(?:(?:->|\.)\w+)*)\s*;", body)):
+        name, target = m.group(1), m.group(2)
+        if name in ("it", "i", "j") or target in ("NULL", "nullptr", "0"):
+            continue
+        body = body.replace(m.group(0), "")
+        body = re.sub(r"(?<![\w.>])" + re.escape(name) + r"\b", lambda _m: target, body)
+    return body
+
+
+def flat(text, name, cls=None, helpers=None, consts=None):
+    """normalised body of function `name` (see above); '' when the function is not found"""
+    b = body_of(text, name, cls)
+    if not b:
+        return ""
+    if helpers:
+        b = inline_helpers(b, {k: v for k, v in helpers.items() if k != name})
+    b = resolve_aliases(b)
+    for k, v in (consts or {}).items():
+        b = re.sub(r"\b" + re.escape(k) + r"\b", v, b)
+    b = re.sub(r"\bstatic_cast\s*<[^<>]*(?:<[^<>]*>)?[^<>]*>\s*", "", b)
+    b = re.sub(r"\(\s*(?:const\s+)?[\w:]+(?:<[^()]*>)?\s*\*\s*\)", "", b)          # pointer casts
+    b = b.replace("this->", "")
+    b = re.sub(r"[{}]", "", b)
+    b = re.sub(r"\s+", "", b)
+    b = re.sub(r";;+", ";", b)
+    return b
+
+
+def first_pos(b, *alts):
+    """first position of any of the alternative spellings; -1 when none occurs"""
+    ps = [b.find(a) for a in alts if b.find(a) >= 0]
+    return min(ps) if ps else -1
+
+
+def stmt_with(b, start):
+    """the statement (text up to the next ';') that begins with `start`, '' when absent"""
+    k = b.find(start)
+    return b[k:b.find(";", k) + 1] if k >= 0 else ""
+
+
 def extract():
     src = vlib.REPO / "src"
     P = src / "phreeqcpp"
@@ -65,96 +177,114 @@ def extract():
         facts.append((name, bool(ok)))
         where[name] = loc
 
-    util = strip_comments((P / "utilities.cpp").read_text(errors="replace"))
-    b = squeeze(body_of(util, "get_input_errors"))
-    fact("get_input_errors_is_input_error_else_io_count", b == "if(input_error==0){returnphrq_io->Get_io_error_count();}returninput_error;", "utilities.cpp get_input_errors")
+    def load(path):
+        t = strip_comments(path.read_text(errors="replace"))
+        return t, static_helpers(t), file_constants(t)
 
-    pout = strip_comments((P / "PHRQ_io_output.cpp").read_text(errors="replace"))
-    b = squeeze(body_of(pout, "error_msg"))
+    util, uh, uc = load(P / "utilities.cpp")
+    b = flat(util, "get_input_errors", None, uh, uc)
+    fact("get_input_errors_is_input_error_else_io_count",
+         b in ("if(input_error==0)returnphrq_io->Get_io_error_count();returninput_error;",
+               "if(input_error!=0)returninput_error;returnphrq_io->Get_io_error_count();",
+               "returninput_error==0?phrq_io->Get_io_error_count():input_error;",
+               "return(input_error==0)?phrq_io->Get_io_error_count():input_error;"), "utilities.cpp get_input_errors")
+
+    pout, ph, pc = load(P / "PHRQ_io_output.cpp")
+    b = flat(pout, "error_msg", None, ph, pc)
     fact("engine_error_msg_sets_input_error_when_count_le_0", b.startswith("if(get_input_errors()<=0)input_error=1;"), "PHRQ_io_output.cpp Phreeqc::error_msg")
-    fact("engine_error_msg_forwards_to_phrq_io", "phrq_io->error_msg(msg.str().c_str(),stop);" in b, "PHRQ_io_output.cpp Phreeqc::error_msg")
+    fwd = stmt_with(b, "phrq_io->error_msg(")
+    fact("engine_error_msg_forwards_to_phrq_io", fwd.endswith(",stop);"), "PHRQ_io_output.cpp Phreeqc::error_msg")
 
-    pio = strip_comments((P / "common" / "PHRQ_io.cpp").read_text(errors="replace"))
-    b = squeeze(body_of(pio, "error_msg"))
-    fact("phrq_io_error_msg_increments_io_error_count", b.startswith("io_error_count++;"), "PHRQ_io.cpp PHRQ_io::error_msg")
-    fact("io_error_count_assigned_only_in_constructor", len(re.findall(r"io_error_count\s*=[^=]", pio)) == 1 and
-         len(re.findall(r"Set_io_error_count\s*\(", strip_comments("".join(f.read_text(errors='replace') for f in list(P.glob('*.cpp')) + list(P.glob('*.cxx')))))) == 0,
-         "PHRQ_io.cpp / engine sources")
+    pio, ioh, ioc = load(P / "common" / "PHRQ_io.cpp")
+    b = flat(pio, "error_msg", None, ioh, ioc)
+    inc = first_pos(b, "io_error_count++;", "++io_error_count;", "io_error_count+=1;", "io_error_count=io_error_count+1;")
+    first_if = first_pos(b, "if(")
+    fact("phrq_io_error_msg_increments_io_error_count", inc >= 0 and (first_if < 0 or inc < first_if), "PHRQ_io.cpp PHRQ_io::error_msg")
+    engine_all = strip_comments("".join(f.read_text(errors="replace") for f in list(P.glob("*.cpp")) + list(P.glob("*.cxx"))))
+    fact("io_error_count_assigned_only_in_constructor", len(re.findall(r"\bio_error_count\s*=[^=]", pio)) == 1 and
+         len(re.findall(r"Set_io_error_count\s*\(", engine_all)) == 0, "PHRQ_io.cpp / engine sources")
 
-    ip = strip_comments((src / "IPhreeqc.cpp").read_text(errors="replace"))
-    b = squeeze(body_of(ip, "error_msg", "IPhreeqc"))
+    ip, iph, ipc = load(src / "IPhreeqc.cpp")
+
+    def F(name):
+        return flat(ip, name, "IPhreeqc", iph, ipc)
+
+    b = F("error_msg")
     fact("wrapper_error_msg_counts_records_and_throws",
-         "this->PHRQ_io::error_msg(str);" in b and "if(this->ErrorStringOn&&this->error_on){this->AddError(str);}" in b and
-         b.rstrip("}").endswith("throwIPhreeqcStop();") and "if(stop){" in b, "IPhreeqc.cpp IPhreeqc::error_msg")
-    b = squeeze(body_of(ip, "warning_msg", "IPhreeqc"))
-    fact("wrapper_warning_msg_appends_text_and_newline", "oss<<str<<std::endl;if(this->WarningStringOn){this->AddWarning(oss.str().c_str());}" in b and "throw" not in b,
+         "PHRQ_io::error_msg(str);" in b and first_pos(b, "if(ErrorStringOn&&error_on)AddError(str);", "if(error_on&&ErrorStringOn)AddError(str);") >= 0 and
+         b.endswith("throwIPhreeqcStop();") and 0 <= b.find("if(stop)") < b.rfind("throwIPhreeqcStop();"), "IPhreeqc.cpp IPhreeqc::error_msg")
+    b = F("warning_msg")
+    fact("wrapper_warning_msg_appends_text_and_newline",
+         first_pos(b, "oss<<str<<std::endl;", "oss<<str<<\"\\n\";", "oss<<str<<'\\n';") >= 0 and "if(WarningStringOn)AddWarning(oss.str().c_str());" in b and "throw" not in b,
          "IPhreeqc.cpp IPhreeqc::warning_msg")
-    b = squeeze(body_of(ip, "check_database", "IPhreeqc"))
-    fact("check_database_clears_both_reporters", b.startswith("this->ErrorReporter->Clear();this->WarningReporter->Clear();"), "IPhreeqc.cpp check_database")
-    fact("check_database_raises_no_database", "if(!this->DatabaseLoaded){" in b and "this->PhreeqcPtr->input_error=1;this->PhreeqcPtr->error_msg(oss.str().c_str(),STOP);" in b,
+    b = F("check_database")
+    gate = b.find("if(!DatabaseLoaded)")
+    fact("check_database_clears_both_reporters", 0 <= b.find("ErrorReporter->Clear();") < gate and 0 <= b.find("WarningReporter->Clear();") < gate, "IPhreeqc.cpp check_database")
+    fact("check_database_raises_no_database", gate >= 0 and gate < b.find("PhreeqcPtr->input_error=1;") < b.find("PhreeqcPtr->error_msg(oss.str().c_str(),STOP);"),
          "IPhreeqc.cpp check_database")
     for fn in ("RunString", "RunFile", "RunAccumulated"):
-        b = squeeze(body_of(ip, fn, "IPhreeqc"))
-        order = [b.find(x) for x in ("this->check_database(sz_routine);", "this->PhreeqcPtr->input_error=0;this->io_error_count=0;", "this->do_run(sz_routine,",
-                                     "catch(constIPhreeqcStop&)", "this->update_errors();", "returnthis->PhreeqcPtr->get_input_errors();")]
-        fact(f"{fn}_order_clear_reset_run_update_return", all(x >= 0 for x in order) and order == sorted(order) and b.endswith("returnthis->PhreeqcPtr->get_input_errors();"),
+        b = F(fn)
+        cd, r1, r2, dr = b.find("check_database(sz_routine);"), b.find("PhreeqcPtr->input_error=0;"), b.find("io_error_count=0;"), b.find("do_run(sz_routine,")
+        ct, ue, ci = b.rfind("catch("), b.rfind("update_errors();"), b.rfind("clear_istream();")
+        ret = b.endswith("returnPhreeqcPtr->get_input_errors();")
+        fact(f"{fn}_order_clear_reset_run_update_return", 0 <= cd < r1 < dr and cd < r2 < dr and b.find("catch(constIPhreeqcStop&)") > dr and ct < ue and ret,
              f"IPhreeqc.cpp {fn}")
-    # input-stream stack: pushed by do_run, released by the API functions after their catch blocks (Model/ErrAcct `streamsAfterCall`)
-    for fn in ("RunString", "RunFile", "RunAccumulated"):
-        b = squeeze(body_of(ip, fn, "IPhreeqc"))
-        fact(f"{fn}_clears_istream_after_catch_blocks",
-             b.endswith("this->update_errors();this->PhreeqcPtr->phrq_io->clear_istream();returnthis->PhreeqcPtr->get_input_errors();") and
-             b.rfind("catch(") < b.rfind("clear_istream()"), f"IPhreeqc.cpp {fn}")
+        fact(f"{fn}_clears_istream_after_catch_blocks", 0 <= ct < ci and ret and "PhreeqcPtr->phrq_io->clear_istream();" in b, f"IPhreeqc.cpp {fn}")
     for fn in ("load_db", "load_db_str"):
-        b = squeeze(body_of(ip, fn, "IPhreeqc"))
-        fact(f"{fn}_clears_istream_after_catch_blocks", 0 <= b.rfind("catch(") < b.rfind("this->PhreeqcPtr->phrq_io->clear_istream();"), f"IPhreeqc.cpp {fn}")
-    dr0 = squeeze(body_of(ip, "do_run", "IPhreeqc"))
-    fact("do_run_pushes_the_callers_stream_unowned_and_never_releases", "this->PhreeqcPtr->phrq_io->push_istream(pis,false);" in dr0 and "clear_istream" not in dr0
+        b = F(fn)
+        fact(f"{fn}_clears_istream_after_catch_blocks", 0 <= b.rfind("catch(") < b.rfind("PhreeqcPtr->phrq_io->clear_istream();"), f"IPhreeqc.cpp {fn}")
+    dr0 = F("do_run")
+    fact("do_run_pushes_the_callers_stream_unowned_and_never_releases", "PhreeqcPtr->phrq_io->push_istream(pis,false);" in dr0 and "clear_istream" not in dr0
          and "pop_istream" not in dr0, "IPhreeqc.cpp do_run")
-    gl = squeeze(body_of(pio, "get_line"))
+    gl = flat(pio, "get_line", None, ioh, ioc)
     fact("get_line_include_missing_is_stop_error_open_is_push_eof_is_pop",
-         "deletenext_stream;" in gl and "error_msg(errstr.str().c_str(),OT_STOP);" in gl and "this->push_istream(next_stream);" in gl and "this->pop_istream();" in gl,
+         "deletenext_stream;" in gl and "error_msg(errstr.str().c_str(),OT_STOP);" in gl and "push_istream(next_stream);" in gl and "pop_istream();" in gl,
          "PHRQ_io.cpp get_line")
-    b = squeeze(body_of(pio, "clear_istream"))
-    fact("clear_istream_pops_everything", b == "while(istream_list.size()>0){pop_istream();}", "PHRQ_io.cpp clear_istream")
-    b = squeeze(body_of(ip, "update_errors", "IPhreeqc"))
-    fact("update_errors_fills_strings_and_lines_from_reporters",
-         "this->ErrorLines.clear();this->ErrorString=((CErrorReporter<std::ostringstream>*)this->ErrorReporter)->GetOS()->str();" in b and
-         "this->WarningLines.clear();this->WarningString=((CErrorReporter<std::ostringstream>*)this->WarningReporter)->GetOS()->str();" in b and
-         b.count("std::getline(iss,line)") == 2, "IPhreeqc.cpp update_errors")
-    b = squeeze(body_of(ip, "UnLoadDatabase", "IPhreeqc"))
+    b = flat(pio, "clear_istream", None, ioh, ioc)
+    fact("clear_istream_pops_everything", b in ("while(istream_list.size()>0)pop_istream();", "while(!istream_list.empty())pop_istream();"), "PHRQ_io.cpp clear_istream")
+    b = F("update_errors")
+    ok = True
+    for X in ("Error", "Warning"):
+        clr, fill, push = b.find(f"{X}Lines.clear();"), b.find(f"{X}String="), b.find(f"{X}Lines.push_back(line);")
+        st = stmt_with(b, f"{X}String=")
+        ok = ok and 0 <= clr < push and 0 <= fill < push and f"{X}Reporter" in st and "GetOS()->str();" in st and \
+            f"std::istringstreamiss({X}String);" in b and b.count(f"{X}Lines.push_back(line);") == 1
+    fact("update_errors_fills_strings_and_lines_from_reporters", ok and b.count("std::getline(iss,line)") == 2, "IPhreeqc.cpp update_errors")
+    b = F("UnLoadDatabase")
     fact("unload_clears_reporters_strings_and_counters",
-         "this->ErrorReporter->Clear();this->ErrorString.clear();" in b and "this->WarningReporter->Clear();this->WarningString.clear();" in b and
-         "this->PhreeqcPtr->input_error=0;this->io_error_count=0;" in b, "IPhreeqc.cpp UnLoadDatabase")
+         all(x in b for x in ("ErrorReporter->Clear();", "ErrorString.clear();", "WarningReporter->Clear();", "WarningString.clear();", "PhreeqcPtr->input_error=0;",
+                              "io_error_count=0;")), "IPhreeqc.cpp UnLoadDatabase")
     unload_clears_lines = "ErrorLines.clear()" in b and "WarningLines.clear()" in b
     refresh = []
     for fn in ("load_db", "load_db_str"):
-        b = squeeze(body_of(ip, fn, "IPhreeqc"))
+        b = F(fn)
         fact(f"{fn}_unloads_reads_and_returns_count",
-             "this->UnLoadDatabase();" in b and "this->PhreeqcPtr->read_database();" in b and
-             b.endswith("this->DatabaseLoaded=(this->PhreeqcPtr->get_input_errors()==0);returnthis->PhreeqcPtr->get_input_errors();"), f"IPhreeqc.cpp {fn}")
-        tail = b[b.find("this->PhreeqcPtr->read_database();"):]
-        refresh.append("this->update_errors();" in tail)
+             0 <= b.find("UnLoadDatabase();") < b.find("PhreeqcPtr->read_database();") and "DatabaseLoaded=(PhreeqcPtr->get_input_errors()==0);" in b and
+             b.endswith("returnPhreeqcPtr->get_input_errors();"), f"IPhreeqc.cpp {fn}")
+        tail = b[b.find("PhreeqcPtr->read_database();"):]
+        refresh.append("update_errors();" in tail)
     for fn in ("LoadDatabase", "LoadDatabaseString"):
-        b = squeeze(body_of(ip, fn, "IPhreeqc"))
-        fact(f"{fn}_runs_self_test_only_when_count_is_zero", re.search(r"intn=this->load_db(_str)?\((filename|input)\);if\(n==0\)\{n=this->test_db\(\);\}", b) is not None and b.endswith("returnn;"),
-             f"IPhreeqc.cpp {fn}")
-    b = squeeze(body_of(ip, "test_db", "IPhreeqc"))
-    fact("test_db_is_a_RunString", "intn=this->RunString(oss.str().c_str());" in b, "IPhreeqc.cpp test_db")
-    b = squeeze(body_of(ip, "GetErrorString", "IPhreeqc"))
-    fact("GetErrorString_reads_the_reporter", "this->ErrorString=((CErrorReporter<std::ostringstream>*)this->ErrorReporter)->GetOS()->str();returnthis->ErrorString.c_str();" in b,
-         "IPhreeqc.cpp GetErrorString")
+        b = F(fn)
+        fact(f"{fn}_runs_self_test_only_when_count_is_zero", re.search(r"intn=load_db(_str)?\((filename|input)\);if\((n==0|0==n|!n)\)n=test_db\(\);", b) is not None and
+             b.endswith("returnn;"), f"IPhreeqc.cpp {fn}")
+    b = F("test_db")
+    fact("test_db_is_a_RunString", "=RunString(oss.str().c_str());" in b, "IPhreeqc.cpp test_db")
+    b = F("GetErrorString")
+    st = stmt_with(b, "ErrorString=")
+    fact("GetErrorString_reads_the_reporter", "ErrorReporter" in st and "GetOS()->str();" in st and b.endswith("returnErrorString.c_str();"), "IPhreeqc.cpp GetErrorString")
 
-    rd = strip_comments((P / "read.cpp").read_text(errors="replace"))
-    b = squeeze(body_of(rd, "read_input"))
-    fact("read_input_resets_input_error", b.find("input_error=0;") >= 0 and b.find("input_error=0;") < b.find("check_line("), "read.cpp read_input")
-    td = strip_comments((P / "tidy.cpp").read_text(errors="replace"))
-    b = squeeze(body_of(td, "tidy_model"))
-    fact("tidy_model_ends_with_the_gate", b.endswith('if(get_input_errors()>0||parse_error>0){error_msg("Calculationsterminatingduetoinputerrors.",STOP);}return(OK);'),
-         "tidy.cpp tidy_model")
-    dr = squeeze(body_of(ip, "do_run", "IPhreeqc"))
-    fact("do_run_reads_then_tidies", 0 <= dr.find("if(this->PhreeqcPtr->read_input()==EOF)break;") < dr.find("this->PhreeqcPtr->tidy_model();"), "IPhreeqc.cpp do_run")
-    db = squeeze(body_of(rd, "read_database") or body_of(strip_comments((P / "mainsubs.cpp").read_text(errors="replace")), "read_database"))
+    rd, rdh, rdc = load(P / "read.cpp")
+    b = flat(rd, "read_input", None, rdh, rdc)
+    fact("read_input_resets_input_error", 0 <= b.find("input_error=0;") < b.find("check_line("), "read.cpp read_input")
+    td, tdh, tdc = load(P / "tidy.cpp")
+    b = flat(td, "tidy_model", None, tdh, tdc)
+    fact("tidy_model_ends_with_the_gate",
+         any(b.endswith(g + r) for g in ('if(get_input_errors()>0||parse_error>0)error_msg("Calculationsterminatingduetoinputerrors.",STOP);',
+                                         'if(parse_error>0||get_input_errors()>0)error_msg("Calculationsterminatingduetoinputerrors.",STOP);')
+             for r in ("return(OK);", "returnOK;")), "tidy.cpp tidy_model")
+    fact("do_run_reads_then_tidies", 0 <= dr0.find("if(PhreeqcPtr->read_input()==EOF)break;") < dr0.find("PhreeqcPtr->tidy_model();"), "IPhreeqc.cpp do_run")
+    ms, msh, msc = load(P / "mainsubs.cpp")
+    db = flat(rd, "read_database", None, rdh, rdc) or flat(ms, "read_database", None, msh, msc)
     fact("read_database_is_read_input_then_tidy_model", 0 <= db.find("read_input();") < db.find("tidy_model();"), "read_database")
 
     # ---- input_error++ sites
@@ -179,7 +309,8 @@ def extract():
                 hi = min(i + 9, len(lines))
                 win = [lines[k] for k in range(lo, hi) if fstart <= offs[k] < nxt]
                 paired = any(re.search(r"\berror_msg\b", w) for w in win)
-                sites.append(dict(file=f.name, line=i + 1, func=fn, paired=paired, reading=bool(READING_FUNCS.match(fn))))
+                nth = sum(1 for s_ in sites if s_["file"] == f.name and s_["func"] == fn) + 1
+                sites.append(dict(file=f.name, line=i + 1, nth=nth, func=fn, paired=paired, reading=bool(READING_FUNCS.match(fn))))
     return dict(facts=facts, where=where, refresh=all(refresh), refresh_each=refresh, unload_clears_lines=unload_clears_lines, sites=sites)
 
 
@@ -201,7 +332,8 @@ def generate(ctx=None):
           "structure BumpSite where", "  file : String", "  line : Nat", "  func : String", "  paired : Bool", "  reading : Bool", "",
           "/-- every `input_error++` in the sources -/",
           "def bumpSites : List BumpSite := ["]
-    L.append(",\n".join(f"  ⟨{lean_str(s['file'])}, {s['line']}, {lean_str(s['func'])}, {'true' if s['paired'] else 'false'}, {'true' if s['reading'] else 'false'}⟩"
+    # `line` holds the ordinal of the site inside its function (stable when unrelated edits shift line numbers)
+    L.append(",\n".join(f"  ⟨{lean_str(s['file'])}, {s['nth']}, {lean_str(s['func'])}, {'true' if s['paired'] else 'false'}, {'true' if s['reading'] else 'false'}⟩"
                         for s in d["sites"]))
     L += ["]", "", "end PhreeqcVerif.Gen.ErrAcct", ""]
     text = "\n".join(L)
